@@ -335,6 +335,10 @@ def opaque_tree_map(I, f, t, others, is_leaf):
             return False
         if select_shape(r.t):
             return UVal(z3.substitute(r.t, *sub), trees[0].cls)
+        # general leafwise expression over opaque leaves: the treewise result is denoted by the same expression over the
+        # trees (A5: tree_map applies f leafwise; all operators on opaque values are uninterpreted pure functions)
+        if all(l.cls == "leaf" for l in leaves):
+            return UVal(z3.substitute(r.t, *sub), trees[0].cls)
         # general leafwise expression: substitute trees for leaves inside an uninterpreted lifting
     fn = I.ctx.fn(f"tree_map{k}", *([U] * (k + 1)), U)
     return UVal(fn(I.to_u(f), *[x.t for x in trees]), t.cls if t.cls not in ("leaf",) else None)
